@@ -80,7 +80,7 @@ def _case(draw, ctx):
             unconnected_pins=True, outputs="random", io_outputs=True,
         )
     )
-    return {"spec": spec, "inputs": inp}
+    return {"spec": spec, "inputs": inp, "raw_attrs": draw(st.integers(0, 3)) == 0}
 
 
 def strategy(ctx):
@@ -91,6 +91,11 @@ def check(case, ctx):
     spec = case["spec"]
     c = specs.build(spec)
     g = c.graph
+    if case.get("raw_attrs"):
+        # as built by the fast Verilog parser: non-output nodes carry no 'output' attribute at all
+        for n in g.nodes:
+            if not g.nodes[n].get("output"):
+                g.nodes[n].pop("output", None)
     inp = case["inputs"]
     nodes = set(g.nodes)
     typ = {n: g.nodes[n]["type"] for n in nodes}
